@@ -59,6 +59,14 @@ func Run(r *ev.Run) {
 	if _, _, worker := par.Shard(); !worker {
 		runPivotPair(r)
 		runIssueVsCompletion(r)
+		// the other server flags are not "agent log forwarding": with all of them on and
+		// --send-logs off the completion table and the whole sweep run once more
+		func() {
+			w := newWorldFlags(false, true)
+			defer w.close()
+			runTable(r, w)
+			runSweep(r, w, 0, 1)
+		}()
 	}
 	start := time.Now()
 	par.Run(r, nShards, budget+45*time.Second, func(i, n int, r *ev.Run) {
